@@ -120,6 +120,11 @@ pub fn gen_universal(rng: &mut Rng, index: u64, allow_bad: bool) -> Scenario {
             pending.extend_from_slice(&bytes[..upto]);
             flush(&mut steps, &mut pending, &mut g);
             steps.push(ClientStep::AwaitAfterFinals(finals_before));
+            if !reads && model.first().map(|m| m.last).unwrap_or(false) {
+                // the request ends the connection and its body is never asked for: the rest is
+                // held back until the server has closed its sending side
+                steps.push(ClientStep::AwaitEof);
+            }
             pending.extend_from_slice(&bytes[upto..]);
         } else {
             pending.extend_from_slice(&bytes);
